@@ -500,7 +500,7 @@ def judge(cfg, res, x, baseline):
 
 
 def dev_text(dev):
-    if dev[0] == 'status':
+    if dev[0] in ('status', 'statusonly'):
         return 'status 0x%02X' % dev[1]
     if dev[0] == 'comm':
         return 'communication status 0x%08X' % dev[1]
